@@ -69,7 +69,7 @@ impl<C: Config, Q: Query> Snapshot<C, Q> {
         caller_information: &CallerInformation,
         lock_guard: ComputingLockGuard<C>,
     ) {
-        let Some((lock_guard, snapshot)) =
+        let Some((lock_guard, mut snapshot)) =
             self.should_recompute_query(caller_information, lock_guard).await
         else {
             return;
@@ -81,6 +81,27 @@ impl<C: Config, Q: Query> Snapshot<C, Q> {
         // decided to recompute, we will have to clear the dependencies recorded
         // during the repairation phase to avoid keeping stale dependencies.
         lock_guard.query_computing().clear_dependencies();
+
+        // The repair phase has found this query on a dependency cycle (one of
+        // the callees it observed in its previous run leads back to it). A
+        // cycle member is not executed: its executor would be cut short at its
+        // first read and the query would forget what it depends on, so that a
+        // later edit that dissolves the cycle would never reach it. It takes
+        // its cycle default (see `execute_query`) and keeps the dependency
+        // list of its previous run as unobserved callees: dirty propagation
+        // still reaches it, and as nothing is observed the next repair
+        // recomputes it.
+        if lock_guard.query_computing().is_in_scc() {
+            let previous_order = snapshot.forward_edge_order().await;
+            let previous_info = snapshot.node_info().await;
+
+            lock_guard.query_computing().restore_dependencies(
+                previous_order.as_ref().map_or(&[][..], |x| &x.0),
+                previous_info.iter().flat_map(|info| {
+                    info.transitive_firewall_callees().iter().copied()
+                }),
+            );
+        }
 
         // recompute the query
         snapshot
